@@ -31,6 +31,8 @@ import (
 const (
 	rTFms        = int(protocol.TIMEOUT_FLAG_MILLISECOND_TIME)
 	rEFms        = int(protocol.EXPRIED_FLAG_MILLISECOND_TIME)
+	rTFmin       = int(protocol.TIMEOUT_FLAG_MINUTE_TIME)
+	rEFmin       = int(protocol.EXPRIED_FLAG_MINUTE_TIME)
 	rEFunlimited = int(protocol.EXPRIED_FLAG_UNLIMITED_EXPRIED_TIME)
 	rFupdate     = int(protocol.LOCK_FLAG_UPDATE_WHEN_LOCKED)
 
@@ -39,6 +41,14 @@ const (
 	rLoadLimit     = 200 * time.Millisecond
 	rMinSlack      = 50 * time.Millisecond
 	rMsGranularity = 2 * time.Millisecond // a millisecond timer may truncate both "now" readings to whole ms
+
+	// A period longer than rLongMs is not waited for: the request / hold is only WATCHED for a window after it was set,
+	// long enough for every hand-over between the timer structures (at most MILLISECOND_QUEUE_LENGTH ms on the millisecond
+	// wheel, then the next second tick; a second-granularity entry is examined at the next one or two ticks). An answer
+	// before the sound lower bound is the violation; what is still pending at the end is abandoned with the instance.
+	rLongMs        = 4000
+	rWatchMsFlagMs = MILLISECOND_QUEUE_LENGTH + 1100
+	rWatchSecMs    = 2200
 )
 
 type rStep struct {
@@ -61,21 +71,46 @@ func (s rStep) String() string {
 	case "sleep":
 		return fmt.Sprintf("sleep %dms", s.D)
 	case "lock":
-		return fmt.Sprintf("lock c%d k%d id%d flag=%#x T=%s E=%s count=%d rcount=%d", s.C, s.Key, s.Id, s.F, rDurName(s.T, s.TF&rTFms != 0, false), rDurName(s.E, s.EF&rEFms != 0, s.EF&rEFunlimited != 0), s.Cnt, s.Rc)
+		return fmt.Sprintf("lock c%d k%d id%d flag=%#x T=%s E=%s count=%d rcount=%d", s.C, s.Key, s.Id, s.F, rDurName(s.T, s.TF, false), rDurName(s.E, s.EF, s.EF&rEFunlimited != 0), s.Cnt, s.Rc)
 	case "unlock":
 		return fmt.Sprintf("unlock c%d k%d id%d rcount=%d", s.C, s.Key, s.Id, s.Rc)
 	}
 	return s.K
 }
 
-func rDurName(v int, ms bool, unlimited bool) string {
+func rDurName(v int, flag int, unlimited bool) string {
 	if unlimited {
 		return "unlimited"
 	}
-	if ms {
+	if flag&rTFms != 0 { // the millisecond and minute bits have the same values in both flag words
 		return fmt.Sprintf("%dms", v)
 	}
+	if flag&rTFmin != 0 {
+		return fmt.Sprintf("%dmin", v)
+	}
 	return fmt.Sprintf("%ds", v)
+}
+
+// rDurMs: a Timeout / Expried value in milliseconds (millisecond flag wins over the minute flag, as in the server).
+func rDurMs(v int, flag int) int64 {
+	switch {
+	case flag&rTFms != 0:
+		return int64(v)
+	case flag&rTFmin != 0:
+		return int64(v) * 60000
+	}
+	return int64(v) * 1000
+}
+
+// rWatchMs: how long a period of d ms is observed after it was set (see rLongMs).
+func rWatchMs(d int64, flag int) int64 {
+	if d <= rLongMs {
+		return d
+	}
+	if flag&rTFms != 0 {
+		return rWatchMsFlagMs
+	}
+	return rWatchSecMs
 }
 
 // rCase deliberately shares no JSON field name with engine A's aCase / engine B's bCase (their replay loaders skip
@@ -222,19 +257,11 @@ func rScriptNominalMs(c *rCase) (total int, maxT int, maxE int) {
 		case "sleep":
 			total += s.D
 		case "lock":
-			t := s.T * 1000
-			if s.TF&rTFms != 0 {
-				t = s.T
-			}
-			if t > maxT {
+			if t := int(rWatchMs(rDurMs(s.T, s.TF), s.TF)); t > maxT {
 				maxT = t
 			}
 			if s.EF&rEFunlimited == 0 {
-				e := s.E * 1000
-				if s.EF&rEFms != 0 {
-					e = s.E
-				}
-				if e > maxE {
+				if e := int(rWatchMs(rDurMs(s.E, s.EF), s.EF)); e > maxE {
 					maxE = e
 				}
 			}
@@ -392,7 +419,10 @@ func rOutstanding(c *rCase, evs []*rEv, now time.Duration) bool {
 	m := rBuildModel(c, evs)
 	for _, q := range m.reqs {
 		if q != nil && q.op.K == "lock" && q.send != nil && len(q.terminal) == 0 {
-			return true
+			d := rDurMs(q.op.T, q.op.TF)
+			if d <= rLongMs || now < q.send.at+time.Duration(rWatchMs(d, q.op.TF)+100)*time.Millisecond {
+				return true
+			}
 		}
 	}
 	for _, h := range m.holds {
@@ -401,7 +431,11 @@ func rOutstanding(c *rCase, evs []*rEv, now time.Duration) bool {
 		}
 		l := h.last()
 		if !l.unlimited() {
-			return true
+			d := rDurMs(l.req.op.E, l.req.op.EF)
+			if d <= rLongMs || now < l.ub.at+time.Duration(rWatchMs(d, l.req.op.EF)+100)*time.Millisecond {
+				return true
+			}
+			continue
 		}
 		// unlimited + millisecond flag: keep watching until the (ignored) Expried value has passed ("now" only decides
 		// when to stop observing)
